@@ -145,6 +145,12 @@ def oracle(chk, u):
                     ok = 0 <= lo
             if not ok:
                 chk.fail("U-CONTRACT", "%s|ret" % cid, "%s returns %s, outside what its contract claims" % (mt["fn"], r), "lib/alg-yescrypt-common.c", {"cell": cid})
+            if mt["fn"] == "des_crypt_block" and p.get("wrote"):
+                # the contract every grid uses (and the setkey/encrypt API relies on: one setkey, any number of encrypt calls in
+                # either direction) says the block function only reads the context
+                chk.fail("U-CONTRACT", "%s|ctx-write" % cid, "des_crypt_block (count %d, decrypt %d) stores into the DES context it is given: the key schedule and salt bits set by des_set_key / des_set_salt must still be the ones the next block operation sees, and the contract the grids use declares the context read-only" % (mt["count"], mt["decrypt"]), "lib/alg-des.c", {"cell": cid})
+            if mt["fn"] in ("des_set_key", "des_set_salt") and not p.get("wrote"):
+                raise AnalysisBroken("unit cell %s: the store of %s into the context was not seen (write detection is blind)" % (cid, mt["fn"]))
             if mt["fn"] in ("des_set_key", "des_set_salt"):
                 # post-condition that des_crypt_block's table indexing relies on: every word written is below 2^24
                 outc = p.get("out", [])
